@@ -155,4 +155,29 @@ IsSubDomainSpec(p, c) == CompareSpec(p, c) = CountLabelSpec(p)
 
 \* dnsutil: relative name r (not fully qualified, not empty, not "@") under origin o (fully qualified)
 AddOriginSpec(r, o) == IF o = <<46>> THEN r \o <<46>> ELSE r \o <<46>> \o o
+-----------------------------------------------------------------------------
+(* Added for C03 / C19 round 7 (operators only ADDED; nothing above changed).  *)
+
+(* WireDenotesName: the octets of msg at off - labels and, possibly, compression       *)
+(* pointers into msg - stand for exactly the labels n, octet for octet (letter *)
+(* case included: a pointer stands for the octets it points at), and the name  *)
+(* ends at `end'.  This is what "packs back to the identical octets" means for *)
+(* a packer that may shorten a name by a pointer: the reader of section 4.1.4  *)
+(* gets the identical name back.                                               *)
+WireDenotesName(msg, off, end, n) ==
+  LET d == DecName(msg, off) IN d.ok /\ d.name = n /\ d.next = end
+
+(* The name with every ASCII letter in the other case: the same name to a      *)
+(* comparison (RFC 1035 s.2.3.3), other octets on the wire.                    *)
+OtherCaseOctet(b) == IF b >= 65 /\ b <= 90 THEN b + 32 ELSE IF b >= 97 /\ b <= 122 THEN b - 32 ELSE b
+OtherCaseName(n) == [i \in 1..Len(n) |-> [j \in 1..Len(n[i]) |-> OtherCaseOctet(n[i][j])]]
+
+(* Raw presentation: only the characters that are syntax are escaped; every    *)
+(* other octet - control characters, octets above 0x7e - stands for itself, as *)
+(* in a zone file written in UTF-8 or Latin-1.  A text is a string of OCTETS:  *)
+(* Parse reads RawPresent(n) back to n, whatever the octets would mean to a    *)
+(* reader of runes (MC_Names: RawRoundTrip).                                   *)
+RawPresOctet(b) == IF b \in Special THEN <<92, b>> ELSE <<b>>
+RawPresent(n) == IF n = <<>> THEN <<46>>
+                 ELSE Concat([i \in 1..Len(n) |-> Concat([j \in 1..Len(n[i]) |-> RawPresOctet(n[i][j])]) \o <<46>>])
 =============================================================================
